@@ -1395,6 +1395,26 @@ fn ep_c20x(s: &mut S, r: &mut Rng, _maxc: usize, _maxr: usize, shard: u64, shard
             }
         }
     }
+    if shard == 1 % shards {
+        // every C0 control (except CAN, SUB, ESC; BEL not in OSC) inside every kind of control string, in every
+        // sub-state of its header (DCS entry / parameters / intermediate / pass-through / ignore), both terminators
+        let headers = ["\x1bP", "\x1bP1;2", "\x1bP$", "\x1bP1$", "\x1bP+!", "\x1bPq", "\x1bP1;2|", "\x1bP:", "\x1bP1:", "\x1bP1 2", "\u{90}", "\u{90}?$", "\u{90}?1",
+                       "\x1b]", "\x1b]0;t", "\u{9d}", "\x1bX", "\x1b^", "\x1b_", "\u{98}", "\u{9e}", "\u{9f}a"];
+        for h in headers {
+            s.episode("C20X");
+            let slot = s.new_vt(5, 4, 1);
+            s.feed_str(slot, "\x1b[2;3r\x1b[?25l\x1b[31mab\r\ncd\x1b[2;2H", true);
+            let osc = h.starts_with("\x1b]") || h.starts_with('\u{9d}');
+            for c in 0u32..0x20 {
+                if c == 0x18 || c == 0x1a || c == 0x1b || (osc && c == 7) || !s.alive(slot) {
+                    continue;
+                }
+                let ch = char::from_u32(c).unwrap();
+                s.feed_str(slot, &format!("{}{}xy\x1b\\", h, ch), true);
+                s.feed_str(slot, &format!("{}z{}{}\u{9c}", h, ch, ch), true);
+            }
+        }
+    }
     let params = ["", "4", "20", "1", "6", "7", "25", "1047", "1049", "2", "3", "5", "0", "1;1", "4;20", "8;2;2", "65535"];
     let prefixes = ["", "?", "<", "=", ">"];
     let inters = ["", " ", "!", "$", "#", "! ", "!$"];
